@@ -74,6 +74,35 @@ func (ldbw *levelDBWrapper) changesInternal(prefix []byte) (Patch, error) {
 	panic("unimplemented")
 }
 
+// levelDBBatchWrapper collects writes into a leveldb.Batch so that a whole commit or rollback
+// reaches the store through one atomic Write. It is write-only.
+type levelDBBatchWrapper struct {
+	batch *leveldb.Batch
+}
+
+func (b *levelDBBatchWrapper) Get(key []byte) ([]byte, error) {
+	panic("unimplemented")
+}
+func (b *levelDBBatchWrapper) Has(key []byte) (bool, error) {
+	panic("unimplemented")
+}
+func (b *levelDBBatchWrapper) Put(key, value []byte) error {
+	b.batch.Put(key, value)
+	return nil
+}
+func (b *levelDBBatchWrapper) NewIterator(prefix []byte) StorageIterator {
+	panic("unimplemented")
+}
+func (b *levelDBBatchWrapper) changesInternal(prefix []byte) (Patch, error) {
+	panic("unimplemented")
+}
+
+func newLevelDBBatchWrapper(batch *leveldb.Batch) DB {
+	return enableDelete(&levelDBBatchWrapper{
+		batch: batch,
+	})
+}
+
 func newLevelDBSnapshotWrapper(ldb *leveldb.Snapshot) db {
 	return newMergedDb([]db{
 		newMemDBInternal(),
